@@ -81,12 +81,15 @@ class SliceAccessor(Accessor):
         if isinstance(subscript, slice):
             # Acquiris Quodcumquae Rapis
             start, stop, step = subscript.start, subscript.stop, subscript.step
+            first, last = int(self.keys_object[0]), int(self.keys_object[-1])
+            lowest, highest = min(first, last), max(first, last)
             if step is None:
-                step = int(self.keys_object[1] - self.keys_object[0])
+                # Like segyio: without a step the lines come in increasing line-number order, whatever the axis order
+                step = abs(int(self.keys_object[1] - self.keys_object[0]))
             if start is None:
-                start = int(self.keys_object[0])
+                start = lowest if step > 0 else highest
             if stop is None:
-                stop = int(self.keys_object[-1] + 1)
+                stop = highest + 1 if step > 0 else lowest - 1
             return [self.values_function(index) for index in range(start, stop, step)]
         else:
             return self.values_function(subscript)
